@@ -278,17 +278,29 @@ def run_case(ctx, case):
                 want = _expected_value(ac, _setting_id(profile, name))
                 ieco_sw = ac.ieco
                 await task
+                n1 = len(model.prop_sets)
                 await ac.apply()
                 slow["on"] = False
                 pid = _setting_id(profile, name)
-                hits = [v for f in model.prop_sets[n0:] for p, v in f if p == pid]
+                first = [v for f in model.prop_sets[n0:n1] for p, v in f if p == pid]      # property write of the overlapped apply
+                second = [v for f in model.prop_sets[n1:] for p, v in f if p == pid]      # ... of the apply after it
                 stats["apply"] += 1
-                if len(hits) < 1:
-                    viol.append(("changed-property-not-sent", f"{name} set while an apply was waiting for the unit was not transmitted by that apply nor by the next", step))
-                elif pid != acprops.P_IECO and want is not None and hits[-1] != want:
-                    viol.append((f"value-encoding/0x{pid:04x}", f"{name} set during an apply went out as {hits[-1].hex()}, attribute encodes to {want.hex()}", step))
-                elif pid == acprops.P_IECO and (len(hits[-1]) != 13 or hits[-1][2] != (1 if ieco_sw else 0)):
-                    viol.append(("value-encoding/ieco", f"iECO value {hits[-1].hex()} for ieco={ieco_sw}", step))
+
+                def carries(v):
+                    if pid == acprops.P_IECO:
+                        return len(v) == 13 and v[2] == (1 if ieco_sw else 0)
+                    return v == want
+
+                if not second and not any(carries(v) for v in first):
+                    viol.append(("changed-property-not-sent", f"{name} set while an apply was waiting for the unit was not transmitted by that apply "
+                                 f"(wrote {[v.hex() for v in first]}) nor by the next", step))
+                elif second and not first and not carries(second[-1]):
+                    # (when the overlapped apply was itself writing this id, the unit's report of that write may legitimately have
+                    # replaced the attribute before the next apply reads it: the value is then not judged)
+                    viol.append((f"value-encoding/0x{pid:04x}", f"{name} set during an apply went out as {second[-1].hex()}, attribute encoded to "
+                                 f"{want.hex() if want is not None else 'iECO switch %r' % ieco_sw}", step))
+                elif first and not any(carries(v) for v in first):
+                    stats["overlap-same-id"] = stats.get("overlap-same-id", 0) + 1
                 fresh, maybe, last_apply = set(), set(), None
                 userset.clear()
             elif op[0] == "apply":
@@ -389,6 +401,7 @@ def run_case(ctx, case):
     ctx.bump("apply-frames-checked", stats["apply"])
     ctx.bump("readback-checked", stats["readback"])
     ctx.bump("readback-by-second-client-checked", stats["readback2"])
+    ctx.bump("setter-during-apply: same id already in flight, value not judged", stats.get("overlap-same-id", 0))
     for rej in model.rejected[:1]:
         ctx.violation("device-rejects-frame", f"device rejected a frame: {rej[1]}", case)
     for mech, what, step in viol[:4]:
